@@ -37,37 +37,37 @@ end
 
 /-- `ParagraphBidiInfo`: the per-character levels -/
 theorem single_levels_congr (ds ds' : DataSource) (t t' : Text) (hwf : t.WF) (hwf' : t'.WF)
-    (hfsi : C02.FSIWidth ds t) (hfsi' : C02.FSIWidth ds' t') (d : Option Nat) (h : SameValues ds ds' t t') (x : Nat) :
+    (d : Option Nat) (h : SameValues ds ds' t t') (x : Nat) :
     Expand.contract t (paragraphBidiInfo ds t d).levels x = Expand.contract t' (paragraphBidiInfo ds' t' d).levels x := by
-  rw [pbi_contract ds t d hwf hfsi (Expand.PipelineC09.pbiExpand ds t hwf hfsi d) x,
-    pbi_contract ds' t' d hwf' hfsi' (Expand.PipelineC09.pbiExpand ds' t' hwf' hfsi' d) x, h.pbi_unitize d]
+  rw [pbi_contract ds t d hwf (Expand.PipelineC09.pbiExpand ds t hwf d) x,
+    pbi_contract ds' t' d hwf' (Expand.PipelineC09.pbiExpand ds' t' hwf' d) x, h.pbi_unitize d]
 
 /-- the panic field of `ParagraphBidiInfo` is that of the one-unit-per-character form -/
-theorem pbi_err_unitize (ds : DataSource) (t : Text) (hwf : t.WF) (hfsi : C02.FSIWidth ds t) (d : Option Nat) :
+theorem pbi_err_unitize (ds : DataSource) (t : Text) (hwf : t.WF) (d : Option Nat) :
     (paragraphBidiInfo ds t d).err = (paragraphBidiInfo ds (Expand.unitize t) d).err := by
-  have e1 : (computeInitialInfo ds t d false).err = none := C02.C02_no_panic ds t d hwf hfsi false
+  have e1 : (computeInitialInfo ds t d false).err = none := C02.C02_no_panic ds t d hwf false
   have e2 : (computeInitialInfo ds (Expand.unitize t) d false).err = none :=
-    C02.C02_no_panic ds _ d (unitize_WF t) (unitize_FSIWidth ds t) false
+    C02.C02_no_panic ds _ d (unitize_WF t) false
   have hl := C02.C02_classes_length ds t d hwf false
-  have hu := classes_uniformOn ds t d hwf hfsi false
+  have hu := classes_uniformOn ds t d hwf false
   have hx := Expand.paraLevels_expand ds (computeInitialInfo ds t d false).lastLevel
     (computeInitialInfo ds t d false).lastPureLtr (computeInitialInfo ds t d false).lastHasIso t hwf _ hl hu
   show orErr (computeInitialInfo ds t d false).err (paraLevels ds _ _ _ t _).2
      = orErr (computeInitialInfo ds (Expand.unitize t) d false).err (paraLevels ds _ _ _ (Expand.unitize t) _).2
-  rw [e1, e2, hx, unitize_classes ds t d hwf hfsi, unitize_level ds t d hwf, (unitize_flags ds t d).1,
+  rw [e1, e2, hx, unitize_classes ds t d hwf, unitize_level ds t d hwf, (unitize_flags ds t d).1,
     (unitize_flags ds t d).2]
 
 theorem single_err_congr (ds ds' : DataSource) (t t' : Text) (hwf : t.WF) (hwf' : t'.WF)
-    (hfsi : C02.FSIWidth ds t) (hfsi' : C02.FSIWidth ds' t') (d : Option Nat) (h : SameValues ds ds' t t') :
+    (d : Option Nat) (h : SameValues ds ds' t t') :
     (paragraphBidiInfo ds t d).err = (paragraphBidiInfo ds' t' d).err := by
-  rw [pbi_err_unitize ds t hwf hfsi d, pbi_err_unitize ds' t' hwf' hfsi' d, h.pbi_unitize d]
+  rw [pbi_err_unitize ds t hwf d, pbi_err_unitize ds' t' hwf' d, h.pbi_unitize d]
 
 /-- every paragraph's sub-text satisfies the `Expand` instance the chunk lemma asks for -/
-theorem pbiExpand_paras (ds : DataSource) (t : Text) (hwf : t.WF) (hfsi : C02.FSIWidth ds t) (d : Option Nat) :
+theorem pbiExpand_paras (ds : DataSource) (t : Text) (hwf : t.WF) (d : Option Nat) :
     ∀ p ∈ (bidiInfo ds t d).paras, PbiExpand ds (t.subrange p.start p.stop) d := by
   intro p hp
   obtain ⟨f, _, hg, _⟩ := Lemmas.C10.parasFrom_mem (Lemmas.C10.paras_good ds t hwf d).1 p hp
-  exact Expand.PipelineC09.pbiExpand ds _ hg.1 (subrange_FSIWidth ds t _ _ hfsi) d
+  exact Expand.PipelineC09.pbiExpand ds _ hg.1 d
 
 /-- the per-character class and bracket values of the chunks (paragraphs) of the two texts coincide -/
 theorem chunks_values {ds ds' : DataSource} {t t' : Text} {d d' : Option Nat} {chunks chunks' : List (List Seg)}
@@ -88,12 +88,12 @@ theorem chunks_values {ds ds' : DataSource} {t t' : Text} {d d' : Option Nat} {c
 
 /-- `BidiInfo`: the per-character levels -/
 theorem multi_levels_congr (ds ds' : DataSource) (t t' : Text) (hwf : t.WF) (hwf' : t'.WF)
-    (hfsi : C02.FSIWidth ds t) (hfsi' : C02.FSIWidth ds' t') (d : Option Nat) (h : SameValues ds ds' t t') (x : Nat) :
+    (d : Option Nat) (h : SameValues ds ds' t t') (x : Nat) :
     Expand.contract t (bidiInfo ds t d).levels x = Expand.contract t' (bidiInfo ds' t' d).levels x := by
   obtain ⟨chunks, hc⟩ := paras_structure ds t d hwf
   obtain ⟨chunks', hc'⟩ := paras_structure ds' t' d hwf'
-  rw [multi_levels_chunks hwf hfsi hc (pbiExpand_paras ds t hwf hfsi d) x,
-    multi_levels_chunks hwf' hfsi' hc' (pbiExpand_paras ds' t' hwf' hfsi' d) x]
+  rw [multi_levels_chunks hwf hc (pbiExpand_paras ds t hwf d) x,
+    multi_levels_chunks hwf' hc' (pbiExpand_paras ds' t' hwf' d) x]
   have key : ∀ (dd : DataSource) (cks : List (List Seg)),
       (cks.map (·.map (·.cp))).map (fun cps => (paragraphBidiInfo dd (charText cps) d).levels)
         = (cks.map (fun ch => (ch.map (fun s => dd.cls s.cp), ch.map (fun s => dd.brk s.cp)))).map
@@ -110,7 +110,7 @@ theorem multi_levels_congr (ds ds' : DataSource) (t t' : Text) (hwf : t.WF) (hwf
 /-- `BidiInfo` is panic-free exactly when `ParagraphBidiInfo` of the one-unit-per-character form of every
     paragraph is -/
 theorem multi_err_chunks {ds : DataSource} {t : Text} {d : Option Nat} {chunks : List (List Seg)}
-    (hwf : t.WF) (hfsi : C02.FSIWidth ds t) (hc : Chunks ds t d chunks) :
+    (hwf : t.WF) (hc : Chunks ds t d chunks) :
     (bidiInfo ds t d).err = none ↔
       ∀ ch ∈ chunks, (paragraphBidiInfo ds (charText (ch.map (·.cp))) d).err = none := by
   have hpar : (bidiInfo ds t d).paras = chunks.map (mkPara ds d) := hc.paras
@@ -120,7 +120,7 @@ theorem multi_err_chunks {ds : DataSource} {t : Text} {d : Option Nat} {chunks :
     obtain ⟨f, hw, _⟩ := chunk_good hwf hc ch hch
     have hw' : (t.subrange (chunkStart ch) (chunkStop ch)).WF := hw
     show (paragraphBidiInfo ds (t.subrange (chunkStart ch) (chunkStop ch)) d).err = _
-    rw [pbi_err_unitize ds _ hw' (subrange_FSIWidth ds t _ _ hfsi) d, unitize_eq_charText,
+    rw [pbi_err_unitize ds _ hw' d, unitize_eq_charText,
       chunk_subrange_cps hwf hc ch hch]
   rw [C10.C10_slice_err ds t hwf d, hpar]
   constructor
@@ -134,7 +134,7 @@ theorem multi_err_chunks {ds : DataSource} {t : Text} {d : Option Nat} {chunks :
 
 /-- `BidiInfo`: panic-free on the one text iff panic-free on the other -/
 theorem multi_err_congr (ds ds' : DataSource) (t t' : Text) (hwf : t.WF) (hwf' : t'.WF)
-    (hfsi : C02.FSIWidth ds t) (hfsi' : C02.FSIWidth ds' t') (d : Option Nat) (h : SameValues ds ds' t t') :
+    (d : Option Nat) (h : SameValues ds ds' t t') :
     (bidiInfo ds t d).err = none ↔ (bidiInfo ds' t' d).err = none := by
   obtain ⟨chunks, hc⟩ := paras_structure ds t d hwf
   obtain ⟨chunks', hc'⟩ := paras_structure ds' t' d hwf'
@@ -155,7 +155,7 @@ theorem multi_err_congr (ds ds' : DataSource) (t t' : Text) (hwf : t.WF) (hwf' :
       rw [← e ch]; exact H ch hch
     · intro H ch hch
       rw [e ch]; exact H _ (List.mem_map_of_mem hch)
-  rw [multi_err_chunks hwf hfsi hc, multi_err_chunks hwf' hfsi' hc', key ds chunks, key ds' chunks',
+  rw [multi_err_chunks hwf hc, multi_err_chunks hwf' hc', key ds chunks, key ds' chunks',
     chunks_values hc hc' h]
 
 end UBidi.Lemmas.C12Units
